@@ -20,6 +20,13 @@ def _token_matches(mol, pattern, token):
     matches = []
     known = set()
     for match in mol.GetSubstructMatches(pattern, uniquify=False, maxMatches=100000):
+        # The substructure search compares the elements only, isotopes and charges have to agree as well.
+        if any(
+            atom.GetIsotope() != mol.GetAtomWithIdx(idx).GetIsotope()
+            or atom.GetFormalCharge() != mol.GetAtomWithIdx(idx).GetFormalCharge()
+            for atom, idx in zip(pattern.GetAtoms(), match)
+        ):
+            continue
         key = (
             frozenset(match),
             tuple(match[bd.atom_bonding_to] for bd in token.bond_descriptors),
